@@ -120,7 +120,7 @@ for tname, sig, argdecl, arg in [('string', 'std::size_t (const std::basic_strin
                                  ('fd', 'std::size_t (const int &, bool)', '  int out;\n', '&out')]:
     UNITS.append(Unit('exp.rotate_output.' + tname, (EXP + 'rotate_output', sig), contract=ROT_C, prelude=P,
                       pre_c=PRE2 + 'unsigned long g_closed_bytes;\n', defines=DEF + ['ENC_MAY_FAIL'], extern_records=EXT, stubs=BLK_STUBS,
-                      replace=['exp.write_block'], gen_stubs=ROT_STUB, ghost=GH_R, setup=EXP_SETUP + argdecl + '  _Bool a_export;\n',
+                      replace=['exp.write_block', 'exp.write_block_b'], inline=BLK_INL, gen_stubs=ROT_STUB, ghost=GH_R, setup=EXP_SETUP + argdecl + '  _Bool a_export;\n',
                       args=['&obj', arg, 'a_export'], props=['C02', 'C10', 'C13', 'C16', 'C15'], timeout=900,
                       post='  if (g_exc != 0) { CANARY("output failure reachable"); }',
                       note='optional export, stop code iff a header was written, then the encoder switches outputs: the closed output is empty or '
